@@ -10,7 +10,9 @@ ExpFull == {-10 * Y, -Y, -86400, -3600, -600, -121, -30, 30, 121, 3600, 86400, Y
 NbfFull == {-Y, -3600, -121, 30, 121, 600, 3600, 86400, 10 * Y}
 ExpQuick == {-Y, -3600, -121, -30, 30, 3600, Y}
 NbfQuick == {-3600, 30, 121, 3600, 10 * Y}
-ExpSpecs == {[k |-> "int", v |-> o] : o \in ExpOffsets} \cup {[k |-> "absent", v |-> 0], [k |-> "nan", v |-> 0], [k |-> "nan", v |-> 1], [k |-> "int", v |-> -2000000000]}
+ExpSpecs == {[k |-> "int", v |-> o] : o \in ExpOffsets} \cup {[k |-> "absent", v |-> 0], [k |-> "nan", v |-> 0], [k |-> "nan", v |-> 1],
+              \* fixed instants -5, 0, 59, 1000 (seconds since the epoch), encoded as offsets near -2*10^9
+              [k |-> "int", v |-> -2000000000], [k |-> "int", v |-> -1999999999], [k |-> "int", v |-> -1999999998], [k |-> "int", v |-> -1999999997]}
 NbfSpecs == {[k |-> "int", v |-> o] : o \in NbfOffsets} \cup {[k |-> "absent", v |-> 0]}
 UT(e, n) == JObj([k \in {"iss", "a"} \cup (IF e.k = "absent" THEN {} ELSE {"exp"}) \cup (IF n.k = "absent" THEN {} ELSE {"nbf"}) |->
               CASE k = "iss" -> JStr("i1") [] k = "a" -> JStr("v/a")
